@@ -456,9 +456,24 @@ func (d *DefaultServerDispatcher) CreateClient(clientID string) {
 func (d *DefaultServerDispatcher) DeleteClient(clientID string) {
 	d.queueMap.Remove(clientID)
 	if d.IsRunning() {
-		d.mutex.RLock()
-		d.requestChannel <- clientID
-		d.mutex.RUnlock()
+		d.notifyPump(clientID)
+	}
+}
+
+// notifyPump posts a token for the client on the request channel.
+//
+// The channel is bounded and the message pump needs the dispatcher's lock to make progress
+// (the pending request state shares it): never wait for room in the channel while holding the lock.
+// Returns false if the dispatcher was stopped before the token could be posted.
+func (d *DefaultServerDispatcher) notifyPump(clientID string) bool {
+	d.mutex.RLock()
+	requestChannel, stoppedC := d.requestChannel, d.stoppedC
+	d.mutex.RUnlock()
+	select {
+	case requestChannel <- clientID:
+		return true
+	case <-stoppedC:
+		return false
 	}
 }
 
@@ -485,9 +500,9 @@ func (d *DefaultServerDispatcher) SendRequest(clientID string, req RequestBundle
 	if err := q.Push(req); err != nil {
 		return err
 	}
-	d.mutex.RLock()
-	d.requestChannel <- clientID
-	d.mutex.RUnlock()
+	if !d.notifyPump(clientID) {
+		return fmt.Errorf("cannot send request %s, the dispatcher was stopped", req.Call.UniqueId)
+	}
 	return nil
 }
 
